@@ -7,9 +7,26 @@ from vf.sqlast import E, Sel, Q, F
 from vf.refsql import struct_key, _walk_query, _walk_exprs
 
 
+def is_constant(e):
+    hit = []
+
+    def fn(x):
+        if x.k in ("col", "subq", "agg", "grouping", "aliasref"):
+            hit.append(1)
+    _walk_exprs(e, fn)
+    return not hit
+
+
 def conj_terms(e, op):
+    if isinstance(e, E) and is_constant(e):
+        return [e]   # folded to one literal before the rewrite rules run
     if isinstance(e, E) and e.k == "bin" and e.a[0] == op:
         return conj_terms(e.a[1], op) + conj_terms(e.a[2], op)
+    # the binder expands x NOT IN (a, b) into x <> a AND x <> b, and x IN (a, b) into x = a OR x = b
+    if isinstance(e, E) and e.k == "inlist" and ((op == "and" and e.a[2]) or (op == "or" and not e.a[2])):
+        return [E("bin", "<>" if e.a[2] else "=", e.a[0], item, t="bool") for item in e.a[1]]
+    if isinstance(e, E) and e.k == "between" and op == "and" and not e.a[3]:
+        return [E("bin", ">=", e.a[0], e.a[1], t="bool"), E("bin", "<=", e.a[0], e.a[2], t="bool")]
     return [e]
 
 
@@ -21,16 +38,6 @@ def aliases_in(e):
             out.add(x.a[0])
     _walk_exprs(e, fn)
     return out
-
-
-def is_constant(e):
-    hit = []
-
-    def fn(x):
-        if x.k in ("col", "subq", "agg", "grouping", "aliasref"):
-            hit.append(1)
-    _walk_exprs(e, fn)
-    return not hit
 
 
 def term_key(t):
@@ -64,7 +71,12 @@ def distinct_from_across_tables(e):
 
     def fn(x):
         if x.k == "isdistinct":
-            if len(aliases_in(x.a[0]) | aliases_in(x.a[1])) >= 2:
+            def has_subq(e):
+                h = []
+                _walk_exprs(e, lambda y: h.append(1) if y.k == "subq" else None)
+                return bool(h)
+            # a subquery operand is planned as a join as well
+            if len(aliases_in(x.a[0]) | aliases_in(x.a[1])) >= 2 or has_subq(x.a[0]) or has_subq(x.a[1]):
                 hit.append(1)
     _walk_exprs(e, fn)
     return bool(hit)
